@@ -14,7 +14,9 @@ from harness.lib import common
 
 PROP = 'C15'
 PROP_FILE = 'Props/C15.v'
-THEOREMS = ['C15_components_safe', 'C15_cd_safe', 'C15_path_inside_root', 'C15_cd_path_inside_dir']
+THEOREMS = ['C15_components_safe', 'C15_cd_safe', 'C15_path_inside_root', 'C15_cd_path_inside_dir',
+            'C15_url_path_inside_root', 'C15_url_ok_of_url', 'C15_session_path_inside_root', 'C15_request_name_inside_root',
+            'C15_placed_inside', 'C15_makedirs_inside_root', 'C15_extra_resource_inside_root', 'C15_symlink_inside_root']
 TRUSTED = [
     'hand-written model Model/Path.v of wpull/path.py and the file-name decisions of wpull/writer.py, tied by the vm_compute '
     'correspondence of this run',
@@ -179,6 +181,67 @@ def gen_cd(r):
     return hdr
 
 
+SPLIT_SCHEMES = ['http', 'https', 'ftp', 'HTTP', 'hTtP', 'a+b-c.d', '1http', 'h\ttp', ' http', '\x00\x1fhttp', 'ht tp', 'é', 'http:http', '', 'x',
+                 'mailto', 'file', 'ws']
+SPLIT_AUTH = ['', '', 'u@', 'u:p@', 'a@b@', '@', ':@', 'u:p:q@']
+SPLIT_HOSTS = ['h', 'H.Example', 'EXAMPLE.com', '[::1]', '[::1', '::1]', '[v1.x]', '[vz]', '[1.2.3.4]', '[fe80::1%25Eth0]', 'a%B', '%zZ', '', 'İ.example',
+               'ΑΣ', 'h\u2100', 'ａ.example', 'h\uff0fx', 'h\uff03', 'h]x[', '[::1]x', 'x[::1]', 'h\tost', 'h\nost', 'h ost', 'HOST%41']
+SPLIT_PORTS = ['', '', ':', ':80', ':0', ':65535', ':65536', ':99999999999999999999', ':08', ':8 0', ':\u0661\u0662', ':x', ':-1', ':+1', ':80:81', ':\xb2',
+               ':1_0']
+SPLIT_TAILS = ['', '/', '/a/b', '/a?b', '?q', '#f', '/a#f?x', '/a?b?c#d#e', '//x', '/\t/a\r\n', '\\a', '/a/', '/a/?', '/?/', '/#/']
+
+
+def gen_split_url(r):
+    t = r.random()
+    if t < 0.15:
+        return gen_raw_url(r)
+    if t < 0.25:
+        return gen_url(r)
+    scheme = r.choice(SPLIT_SCHEMES)
+    sep = r.choice(['://', '://', '://', ':', ':/', ':///', '//', ''])
+    url = scheme + sep + r.choice(SPLIT_AUTH) + r.choice(SPLIT_HOSTS) + r.choice(SPLIT_PORTS) + r.choice(SPLIT_TAILS)
+    if r.random() < 0.15:
+        url = r.choice([' ', '\t', '\x00', '\n \x1f', '\x7f', '\xa0']) + url
+    if r.random() < 0.15:
+        i = r.randrange(len(url) + 1)
+        url = url[:i] + r.choice(['\t', '\r', '\n', ' ', ':', '[', ']', '@', '#', '?', '/']) + url[i:]
+    return url
+
+
+SESS_ROOTS = ['out', 'out', '', '.', 'out/', './out', 'out/sub', 'a/../out', '@ABS@/dl', '@ABS@', 'out//x', './', 'o/./p/', 'a/b/../../q']
+SESS_WRITERS = ['overwrite', 'ignore', 'timestamping', 'anticlobber', 'anticlobber']
+SESS_VARIANTS = ['empty', 'empty', 'file', 'file', 'file12', 'dir', 'dirf', 'prefixfile', 'prefixfile2', 'prefixfile_d', 'file2', 'rootdir']
+SESS_CODES = [200, 200, 200, 200, 204, 206, 299, 301, 304, 404, 500, 199, 300, 399, 400]
+SESS_CTYPES = [None, None, 'text/html', 'text/css', 'TEXT/HTML; charset=x', 'application/xhtml+xml', 'image/png']
+SESS_SUFFIXES = ['.x', '-new', '.orig', '.youtube-dl', '.snapshot.html', 'dummy', '']
+SESS_LINKS = ['a', '../../evil', '/tmp/abs', '..', '.', 'a/b', 'a\\b', '', 'x' * 300, 'é', 'a\x01', 'link name', '.listing', 'a.', ' ', '../..',
+              '%2E%2E', 'A.TXT', '/', '//', 'a/../../b']
+SESS_EXT_SEGS = ['a.html', 'a.HTM', 'b.hTmL', 'c.css', 'c.CSS', 'd.htmlx', 'e.html%0A', 'f.htm%0A%0A', '.html', 'g.css%0A', 'h.txt', 'i']
+
+
+def gen_sess_case(r):
+    fl = {'cont': r.random() < 0.3, 'trust': r.random() < 0.3, 'cd': r.random() < 0.4, 'adjust': r.random() < 0.5}
+    url = gen_url(r)
+    if fl['adjust'] and r.random() < 0.6:
+        url = '%s://h/%s%s' % (r.choice(['http', 'https', 'ftp']), r.choice(['', 'd/', 'd/e/']), r.choice(SESS_EXT_SEGS))
+    url2 = None
+    if r.random() < 0.5:
+        url2 = gen_url(r)
+    variant = r.choice(SESS_VARIANTS)
+    code = r.choice(SESS_CODES)
+    if fl['cont'] and r.random() < 0.6:
+        variant = 'file'
+        code = r.choice([206, 206, 200, 416])
+    h = gen_cd(r) if r.random() < 0.6 else None
+    cfg = gen_cfg(r)
+    if r.random() < 0.5:
+        cfg['index'] = L(r.choice(['index.html', 'i', 'INDEX.HTM']))
+    return {'kind': 'sess', 'cfg': cfg, 'root': L(r.choice(SESS_ROOTS)), 'url': L(url), 'url2': None if url2 is None else L(url2),
+            'mode': 'parse', 'writer': r.choice(SESS_WRITERS), 'flags': fl, 'code': code, 'header': None if h is None else L(h),
+            'ctype': r.choice(SESS_CTYPES), 'variant': variant, 'suffix': L(r.choice(SESS_SUFFIXES)), 'link': L(r.choice(SESS_LINKS)),
+            'restart': r.choice([None, 0, 5, 5]), 'fuel': 8}
+
+
 OLD_NAMES = ['/tmp/dl/h/a/f.txt', 'f.txt', '/f', 'a//b', 'dir/', 'out/example.com/index.html', '', '//x', 'a/b/', './f', '///',
              'a/', '/tmp/dl/f']
 
@@ -186,14 +249,17 @@ OLD_NAMES = ['/tmp/dl/h/a/f.txt', 'f.txt', '/f', 'a//b', 'dir/', 'out/example.co
 # Coq rendering
 # ---------------------------------------------------------------------------
 HEADER = '''From Coq Require Import List NArith ZArith Bool String.
-From Wpull Require Import Lib.Hex Model.Path.
+From Wpull Require Import Lib.Hex Model.Path Model.PathWriter.
 Import ListNotations.
 Open Scope string_scope.
 Open Scope N_scope.
+Open Scope bool_scope.
 '''
 
 
 def cstr(cps):
+    if all(c < 256 for c in cps):          # same list, a third of the text
+        return '(unhex "%s")' % ''.join('%02x' % c for c in cps)
     return '(unhex6 "%s")' % ''.join('%06x' % c for c in cps)
 
 
@@ -232,6 +298,29 @@ def coracles(o):
     return '(tab_fun %s) (tab_fun %s) (tab_fun %s)' % (ctab(o['sha'], cbytes), ctab(o['low'], cstr), ctab(o['upp'], cstr))
 
 
+def cbtab(rows):
+    return '[' + '; '.join('(%s, %s)' % (cstr(k), cbool(v)) for k, v in rows) + ']'
+
+
+def curl_oracles(o):
+    """bracket_ok netloc_ok pylower sha1hex pyupper"""
+    return '(tab_bool %s) (tab_bool %s) (tab_fun %s) (tab_fun %s) (tab_fun %s)' % (
+        cbtab(o['bracket']), cbtab(o['netloc']), ctab(o['low'], cstr), ctab(o['sha'], cbytes), ctab(o['upp'], cstr))
+
+
+def cfstab(probes):
+    return '[' + '; '.join('(%s, (%s, %s, %s))' % (cstr(p), cbool(v[0]), cbool(v[1]), cbool(v[2])) for p, v in probes) + ']'
+
+
+def cwout(res):
+    if 'err' in res:
+        return '(Err %s)' % res['err']
+    o = res['ok']
+    if o[0] in ('WOpen', 'WAppend'):
+        return '(Ok (%s %s))' % (o[0], cstr(o[1]))
+    return '(Ok %s)' % o[0]
+
+
 def cres(res):
     if 'ok' in res:
         return '(Ok %s)' % cstr(res['ok'])
@@ -241,8 +330,43 @@ def cres(res):
 def coq_case(case, res):
     k = case['kind']
     if k == 'url':
-        return 'res_eqb (get_filename %s %s %s %s) %s' % (coracles(res['oracles']), ccfg(case['cfg']), cstr(case['root']),
-                                                         cparts(res['parts']), cres(res))
+        # from the URL STRING, through the concrete urlsplit model
+        return 'res_eqb (get_filename_url %s %s %s %s %s) %s' % (curl_oracles(res['oracles']), ccfg(case['cfg']), cstr(case['root']),
+                                                                 cstr(res['norm_url']), cbool(res['is_ftp']), cres(res))
+    if k == 'split':
+        o = res['oracles']
+        exp = '(Ok %s)' % cparts(res['parts']) if 'parts' in res else '(Err %s)' % res['err']
+        return 'res_parts_eqb (urlparts_of (tab_bool %s) (tab_bool %s) (tab_fun %s) %s %s %s) %s' % (
+            cbtab(o['bracket']), cbtab(o['netloc']), ctab(o['low'], cstr), cbool(case['need_port']), cstr(case['url']),
+            cbool(case['is_ftp']), exp)
+    if k == 'sess':
+        tab = cfstab(res['probes'])
+        fl = case['flags']
+        kind = {'overwrite': 'WOverwrite', 'ignore': 'WIgnore', 'timestamping': 'WTimestamping', 'anticlobber': 'WAntiClobber'}[case['writer']]
+        w = '{| w_kind := %s; w_continue := %s; w_trust := %s; w_cd := %s; w_adjust := %s |}' % (
+            kind, cbool(fl['cont']), cbool(fl['trust']), cbool(fl['cd']), cbool(fl['adjust']))
+        sch2 = res['scheme2']
+        rr = ('{| r_ftp := %s; r_http := %s; r_code := (%d)%%Z; r_url := %s; r_header := %s; r_html := %s; r_css := %s; '
+              'r_restart := %s |}' % (cbool(sch2 == 'ftp'), cbool(sch2 in ('http', 'https')), 0 if sch2 == 'ftp' else case['code'],
+                                      cparts(res['parts2']), copt(None if sch2 == 'ftp' else case['header'], cstr),
+                                      cbool(res['html']), cbool(res['css']), cbool(res['restart'])))
+        o = res['oracles']
+        lets = 'let tab := %s in let sha := tab_fun %s in let low := tab_fun %s in let upp := tab_fun %s in let cf := %s in ' % (
+            tab, ctab(o['sha'], cbytes), ctab(o['low'], cstr), ctab(o['upp'], cstr), ccfg(case['cfg']))
+        tab = 'tab'
+        orc = 'sha low upp'
+        cfgs = 'cf'
+        items = ['res_wout_eqb (session_run %s (fs_isfile %s) (fs_isdir %s) (fs_exists %s) %s %d%%nat %s %s %s %s) %s' % (
+            orc, tab, tab, tab, w, case['fuel'], cfgs, cstr(res['root']), cparts(res['parts1']), rr, cwout(res))]
+        final = res['final'] or []
+        if 'ok' in res and res['ok'][0] in ('WOpen', 'WAppend'):
+            mk = res['makedirs'][0] if res['makedirs'] else None
+            items.append('opt_str_eqb (makedirs_arg (fs_exists %s) %s) %s' % (tab, cstr(res['ok'][1]), copt(mk, cstr)))
+        items.append('opt_str_eqb (extra_resource_path %s %s) %s' % (cstr(final), cstr(case['suffix']), copt(res['extra'], cstr)))
+        sym = res['symlink']
+        symexp = '(Ok %s)' % copt(sym['ok'], cstr) if 'ok' in sym else '(Err %s)' % sym['err']
+        items.append('res_opt_eqb (symlink_path %s %s %s %s) %s' % (orc, cfgs, cstr(final), cstr(case['link']), symexp))
+        return '(' + lets + ' && '.join(items) + ')' 
     if k == 'cd':
         return 'res_eqb (rename_with_content_disposition %s %s %s %s %s) %s' % (
             coracles(res['oracles']), ccfg(case['cfg']), cbool(case['scheme'] in ('http', 'https')),
@@ -326,14 +450,85 @@ def in_statement(case, res):
         return False
     if case['kind'] == 'url':
         p = res['parts']
+        if p is None:
+            return False
         if cfg['use_dir'] and cfg['protocol'] and not p['scheme']:
             return False
         if p['hostname'] == []:
             return False
+    if case['kind'] == 'sess':
+        for p in (res['parts1'], res['parts2']):
+            if cfg['use_dir'] and cfg['protocol'] and not p['scheme']:
+                return False
     return True
 
 
+def inside_problem(cfg, root, path, allow_root=False):
+    """lexical containment as the theorems state it: normpath(path) is normpath(root) followed by safe components, and
+    these components are literally the last components of the path string"""
+    nroot = os.path.normpath(root) if root else '.'
+    npath = os.path.normpath(path) if path else '.'
+    if nroot == '.':
+        if npath.startswith('/') or npath == '..' or npath.startswith('../'):
+            return 'outside-root'
+        comps = [] if npath == '.' else npath.split('/')
+    elif set(nroot) == {'/'}:
+        if not npath.startswith(nroot) or (len(npath) > len(nroot) and npath[len(nroot)] == '/'):
+            return 'outside-root'
+        comps = [x for x in [npath[len(nroot):]] if x]
+        comps = comps[0].split('/') if comps else []
+    else:
+        if npath == nroot:
+            comps = []
+        elif npath.startswith(nroot + '/'):
+            comps = npath[len(nroot) + 1:].split('/')
+        else:
+            return 'outside-root'
+    if not comps:
+        return None if allow_root else 'no-component-below-root'
+    for comp in comps:
+        why = component_problem(cfg, comp)
+        if why:
+            return why
+    if path.split('/')[-len(comps):] != comps:
+        return 'dot-or-empty-component-in-path'
+    return None
+
+
+def sess_problem(case, res):
+    """every path the session hands to open / makedirs / symlink, and the derived paths"""
+    if not in_statement(case, res):
+        return None
+    cfg = case['cfg']
+    root = ''.join(map(chr, res['root']))
+    T = lambda cps: ''.join(map(chr, cps))          # noqa: E731
+    for name, mode in res.get('opened', []):
+        why = inside_problem(cfg, root, T(name))
+        if why:
+            return 'open:' + why
+    for d in res.get('makedirs', [])[:1]:
+        why = inside_problem(cfg, root, T(d), allow_root=True)
+        if why:
+            return 'makedirs:' + why
+    if res.get('final'):
+        why = inside_problem(cfg, root, T(res['final']))
+        if why:
+            return 'filename:' + why
+    sym = res.get('symlink', {})
+    if sym.get('ok'):
+        why = inside_problem(cfg, root, T(sym['ok']))
+        if why:
+            return 'symlink:' + why
+    if res.get('extra') and case['suffix'] and '/' not in T(case['suffix']):
+        why = inside_problem(cfg, root, T(res['extra']))
+        if why:
+            return 'extra:' + why
+    return None
+
+
 def property_on_impl(case, res):
+    if case['kind'] == 'sess':
+        return sess_problem(case, res)
     if 'ok' not in res or case['kind'] not in ('url', 'cd'):
         return None
     cfg = case['cfg']
@@ -368,7 +563,7 @@ def _violations(cases, results):
         why = property_on_impl(c, res)
         if why:
             out.append({'why': why, 'case': c, 'impl': res.get('ok'),
-                        'ftp': bool(res.get('parts', {}).get('is_ftp')) if c['kind'] == 'url' else False})
+                        'ftp': bool((res.get('parts') or {}).get('is_ftp')) if c['kind'] == 'url' else False})
     return out
 
 
@@ -387,8 +582,12 @@ def _impl(cases, shard=200, extra=None):
     return res, outs[0] if outs else {}
 
 
-def gen_cases(r, n_url, n_raw, n_cd, n_lib):
+def gen_cases(r, n_url, n_raw, n_cd, n_lib, n_split=0, n_sess=0):
     cases = []
+    for i in range(n_split):
+        cases.append({'kind': 'split', 'url': L(gen_split_url(r)), 'need_port': r.random() < 0.7, 'is_ftp': r.random() < 0.3})
+    for i in range(n_sess):
+        cases.append(gen_sess_case(r))
     flagcfgs = all_flag_cfgs(r)
     for i in range(n_url):
         cfg = flagcfgs[i % len(flagcfgs)] if i < 2 * len(flagcfgs) else gen_cfg(r)
@@ -491,14 +690,14 @@ def os_type_domain(repo):
 
 def _sizes(ctx):
     if ctx.thorough:
-        return dict(n_url=24000, n_raw=6000, n_cd=8000, n_lib=3000, n_fs=400)
-    return dict(n_url=1500, n_raw=500, n_cd=700, n_lib=400, n_fs=64)
+        return dict(n_url=24000, n_raw=6000, n_cd=8000, n_lib=3000, n_fs=400, n_split=8000, n_sess=6000)
+    return dict(n_url=1000, n_raw=400, n_cd=500, n_lib=300, n_fs=48, n_split=400, n_sess=300)
 
 
 def correspondence(ctx):
     r = common.rng('c15')
     sz = _sizes(ctx)
-    cases = gen_cases(r, sz['n_url'], sz['n_raw'], sz['n_cd'], sz['n_lib']) + gen_fs_cases(r, sz['n_fs'])
+    cases = gen_cases(r, sz['n_url'], sz['n_raw'], sz['n_cd'], sz['n_lib'], sz['n_split'], sz['n_sess']) + gen_fs_cases(r, sz['n_fs'])
     pw = [c['url'] for c in cases if c['kind'] == 'url'][:800] + [c['header'] for c in cases if c['kind'] == 'cd' and c['header']][:400]
     results, first = _impl(cases, extra={'tables': True, 'piecewise': pw})
     disagreements = []
@@ -532,7 +731,7 @@ def correspondence(ctx):
             sha_n += 1
             if len(v) != 40 or any(chr(x) not in '0123456789abcdef' for x in v):
                 sha_bad += 1
-        if c['kind'] == 'url' and 'parts' in res and c['mode'] == 'parse':
+        if c['kind'] == 'url' and res.get('parts') and c['mode'] == 'parse':
             p = res['parts']
             if not p['scheme'] or p['hostname'] == [] or p['hostname'] is None:
                 hyp_bad += 1
